@@ -368,6 +368,17 @@ def run_case(case):
                     resobj = at.Result(model=m, parset=P.parsets[0])
                     sc.saveobj(fn, resobj)
                     back = sc.loadobj(fn)
+                # copying / pickling / saving a finished result changes neither the original nor what the copy knows about the run
+                flags0 = (cfg == "programs", cfg == "programs", resobj.name, len(resobj.pop_names))  # (the run used programs iff it was given a program set and instructions)
+                cp_ = sc.dcp(resobj)
+                pk_ = pickle.loads(pickle.dumps(resobj))
+                for label_, obj_ in (("original-after-copying", resobj), ("deepcopy", cp_), ("pickle", pk_), ("saveobj", back)):
+                    f_ = (bool(obj_.used_programs), bool(obj_.model.programs_active), obj_.name, len(obj_.pop_names))
+                    R.count("result_copies_compared")
+                    if f_ != flags0:
+                        R.bad("copies-run-identically", "C08:copied-result-loses-run-information[%s]" % label_, {"op": [i, cfg], "before": list(map(str, flags0)), "after": list(map(str, f_))})
+                    else:
+                        R.ok("copies-run-identically")
                 diffs = digest.compare_arrays(base, digest.result_arrays(back))
                 R.count("copies_compared")
                 if diffs:
